@@ -49,6 +49,9 @@ RECURSIVE AddAll(_, _, _)
 AddAll(lv, items, q) == IF q > Len(items) THEN lv ELSE AddAll(AddTo(lv, items[q][1], items[q][2]), items, q + 1)
 
 \* all <<key, k>> pairs of a level as a sequence (order irrelevant: only sums are formed)
+RECURSIVE SortedSeq(_)
+SortedSeq(S) == IF S = {} THEN <<>> ELSE LET x == SetMin(S) IN <<x>> \o SortedSeq(S \ {x})
+
 RECURSIVE SetToSeq(_)
 SetToSeq(S) == IF S = {} THEN <<>> ELSE LET x == CHOOSE x \in S : TRUE IN <<x>> \o SetToSeq(S \ {x})
 
@@ -107,4 +110,40 @@ LookupPv(m, p, bn, bd, K, GI, G, s8, SeedFromRow0) ==
       kmaxKey == IF {x \in keys : x < s} = {} THEN s
                  ELSE IF below = {} THEN SetMin(keys) ELSE SetMax(below)
   IN <<Cum(s), Cum(kmaxKey)>>
+
+\* ---------------------------------------------------------------- C13: lookup_score and the refinement iterator
+\* One refinement step of approximate_score at granularity 1/GI over the integer window mn..mx, for the target
+\* p = pn / (pc * bd^M).  Returns [alpha, conv, panic, e, offS]: the integer threshold, whether the reported range is a
+\* point, whether keys[riter + 1] would be indexed out of bounds, the error bound (1/G units) and the offset sum.
+LookupScore(m, p, bn, bd, K, GI, G, pn, pc, mn, mx) ==
+  LET raw == IntRaw(m, p, K, GI, G)
+      im  == IntM(raw, K)
+      M   == Len(m)
+      e   == ErrMaxG(m, p, K, GI, G)
+      offS == PlainSum(Offs(raw, K), M)
+      d   == Distribution(im, bn, bd, K, mn, mx)
+      keys == d.last.pres
+      ks  == SortedSeq(keys)                                   \* ascending
+      n   == Len(ks)
+      val(q) == d.last.val[ks[q]]
+      \* cumulative sum of the keys with index >= q (1-based), i.e. what `sum` is after processing index q
+      Cum(q) == PlainSum([j \in 1..(n - q + 1) |-> val(q + j - 1)], n - q + 1)
+      ge(x) == x * pc >= pn                                    \* x / bd^M >= p
+      gt(x) == x * pc > pn
+      \* riter (1-based index): the largest index >= 2 whose cumulative sum reaches p, else 1 (the loop never processes index 1)
+      hit == {q \in 2..n : ge(Cum(q))}
+      riter == IF hit = {} THEN 1 ELSE SetMax(hit)
+      sum == IF n <= 1 THEN 0 ELSE Cum(IF hit = {} THEN 2 ELSE riter)
+      over == hit # {} /\ gt(sum)
+      panic == over /\ riter = n                               \* keys[riter + 1] out of bounds
+      alpha  == IF over THEN (IF riter < n THEN ks[riter + 1] ELSE ks[n]) ELSE ks[riter]
+      alphaE == IF over THEN ks[riter] ELSE IF riter = 1 THEN ks[1] ELSE ks[riter - 1]
+      \* reported range is a point iff the two keys are further apart than error_max, or the two p-values coincide
+      pvA == IF over THEN (IF riter < n THEN Cum(riter + 1) ELSE 0) ELSE (IF riter = 1 THEN sum ELSE Cum(riter))
+      pvE == IF over THEN Cum(riter) ELSE sum
+      conv == (G * (alpha - alphaE) > e) \/ pvA = pvE
+  IN [alpha |-> alpha, conv |-> conv, panic |-> panic \/ n = 0, e |-> e, offS |-> offS]
+
+\* ceil(error_max + 0.5) with error_max = e / G
+Margin(e, G) == CeilDiv(2 * e + G, 2 * G)
 =============================================================================
